@@ -191,6 +191,12 @@ static var thread_main(var args) {
   if (phase != 9) { pthread_barrier_wait(&start_bar); }
   if (phase == 0 || phase == 9) { out->digest = workload(idx, SEEDS[idx], out); }
   else if (phase == 1) { mutex_work(idx, SEEDS[idx], out); }
+  else if (phase == 3) {
+    /* first use of the Mutex classes by every thread at the same instant (the type records were reset just before) */
+    vh_rng r; vh_rng_seed(&r, SEEDS[idx] ^ 0x33);
+    if (idx % 2) { with (m in the_mutex) { one_section(idx, out, &r); } lock(the_mutex); one_section(idx, out, &r); unlock(the_mutex); }
+    else { lock(the_mutex); one_section(idx, out, &r); unlock(the_mutex); with (m in the_mutex) { one_section(idx, out, &r); } }
+  }
   else {
     vh_rng r; vh_rng_seed(&r, SEEDS[idx]);
     usleep((useconds_t)vh_below(&r, 2000));
@@ -312,6 +318,12 @@ static void one_trial(vh_rng* r, int nthreads) {
   cold_type(Mutex); cold_type(Function); cold_type(Thread);
   vh_count("mutex_phases_started_with_cold_lookups");
   run_threads(nthreads, 1);
+  /* and twenty short rounds in which the very first thing every thread does is a cold lookup */
+  for (int rep = 0; rep < 20; rep++) {
+    cold_type(Mutex); cold_type(Function); cold_type(Thread);
+    run_threads(nthreads, 3);
+    vh_count("cold_first_lookup_rounds");
+  }
   long total = 0, overlaps = 0, contended = 0;
   for (int i = 0; i < nthreads; i++) { total += RES[i].sections; overlaps += RES[i].overlaps; contended += RES[i].trylock_fail; }
   vh_evals(2);
